@@ -184,7 +184,7 @@ def value_for(kind: str, scheme: str, j: int) -> Any:
             return {"x": 30 + j, "y": "n"}
         if kind == "D":
             return {"p": 40 + j, "q": "n"}
-        return [j, {"k": [j, None, 1.5]}, f"v{j}"]
+        return [j, {"k": [j, None, 1.5], "none": None, "u": "é☃"}, f"v{j}é"]
     if scheme == "inst":
         if kind == "M":
             return Model(x=50 + j, y=f"m{j}")
@@ -298,7 +298,18 @@ def run_signature(sig: Tuple[str, str], acc: Acc, sers: List[str]) -> None:
                         bound = refsig.bind_partial(*args, **kwargs)
                     except TypeError:
                         continue
-                    for validate in (True, False):
+                    variants = [(args, kwargs, bound)]
+                    dep_names = [names[j] for j, k in enumerate(pos) if k == "P"]
+                    if dep_names and scheme in ("conv", "native") and not omit_default:
+                        # the caller passes an explicit value for a dependency parameter: it must win
+                        kw2 = dict(kwargs)
+                        for dn in dep_names:
+                            kw2[dn] = f"explicit-{dn}"
+                        try:
+                            variants.append((args, kw2, refsig.bind_partial(*args, **kw2)))
+                        except TypeError:
+                            pass
+                    for (args, kwargs, bound), validate in itertools.product(variants, (True, False)):
                         rec.clear()
                         wire.clear()
                         sent_msgs.clear()
@@ -320,7 +331,7 @@ def run_signature(sig: Tuple[str, str], acc: Acc, sers: List[str]) -> None:
                         for j, k in enumerate(kinds):
                             nm = names[j]
                             if k == "P":
-                                want: Any = "DEP-VALUE"
+                                want: Any = bound.arguments.get(nm, "DEP-VALUE")
                             elif k == "C":
                                 if not isinstance(got[nm], Context) or got[nm].message.task_name != "c08:gen":
                                     acc.violation("context-param", f"{case}: parameter {nm} received {got[nm]!r}", {"case": case})
